@@ -767,7 +767,7 @@ pub fn start(cfg: SimCfg, dec: Decider, fatal_fd: i32) {
 /// system call): an un-simulated thread watches the step counter; when it has not moved for
 /// STALL_SECS it signals the thread holding the token, whose handler reports where it is and stops
 /// the run. Only ever fires on a thread that would otherwise spin until the parent's kill.
-const STALL_SECS: u64 = 8;
+const STALL_SECS: u64 = 4;
 extern "C" fn on_stall(_sig: libc::c_int) {
     let p = SIM.load(Ordering::Acquire);
     if p.is_null() {
